@@ -26,46 +26,64 @@ Qed.
 Require Import Lemmas_Af.
 Ltac Zify.zify_post_hook ::= Z.div_mod_to_equations.
 
-(* the index and bit position of a code, in whichever of the usual forms the C code computes them *)
-Lemma quot8 v : 0 <= v < 256 -> to_u8 (Z.quot v 8) = v / 8.
-Proof. intros H. rewrite Z.quot_div_nonneg by lia. unfold to_u8. rewrite Z.mod_small; lia. Qed.
-Lemma rem8 v : 0 <= v < 256 -> to_u8 (Z.rem v 8) = v mod 8.
-Proof. intros H. rewrite Z.rem_mod_nonneg by lia. unfold to_u8. rewrite Z.mod_small; lia. Qed.
-Lemma shr3 v : 0 <= v < 256 -> Z.shiftr v 3 = v / 8.
-Proof. intros H. rewrite Z.shiftr_div_pow2 by lia. reflexivity. Qed.
-Lemma land7 v : 0 <= v < 256 -> Z.land v 7 = v mod 8.
-Proof. intros H. change 7 with (Z.ones 3). rewrite Z.land_ones by lia. reflexivity. Qed.
+(* The three closed sub-terms of the C functions — range test, byte index, bit mask — are compared
+   with the model's over all 256 codes by kernel evaluation, whatever form the C code computes them
+   in; what remains is the same expression over the indexed byte. *)
+Ltac sweep_z v H :=
+  apply Z.eqb_eq; revert v H;
+  match goal with |- forall v, 0 <= v < 256 -> (@?P v) = true =>
+    intros v H; exact (sweep8 P ltac:(vm_compute; reflexivity) v H) end.
+Ltac sweep_b v H :=
+  apply Bool.eqb_prop; revert v H;
+  match goal with |- forall v, 0 <= v < 256 -> (@?P v) = true =>
+    intros v H; exact (sweep8 P ltac:(vm_compute; reflexivity) v H) end.
+
+Ltac norm_index a v H :=
+  repeat match goal with
+         | |- context [nth (Z.to_nat ?I) a 0] =>
+           lazymatch I with (v / 8) => fail | _ => idtac end;
+           let E := fresh "E" in assert (E : I = v / 8) by (sweep_z v H); rewrite !E; clear E
+         | |- context [upd (Z.to_nat ?I) _ a] =>
+           lazymatch I with (v / 8) => fail | _ => idtac end;
+           let E := fresh "E" in assert (E : I = v / 8) by (sweep_z v H); rewrite !E; clear E
+         end.
+Ltac norm_mask a v H :=
+  repeat match goal with
+         | |- context [Z.land (nth (Z.to_nat (v / 8)) a 0) ?M] =>
+           lazymatch M with (Z.shiftr 128 (v mod 8)) => fail | _ => idtac end;
+           let E := fresh "E" in assert (E : M = Z.shiftr 128 (v mod 8)) by (sweep_z v H); rewrite !E; clear E
+         | |- context [Z.lor (nth (Z.to_nat (v / 8)) a 0) ?M] =>
+           lazymatch M with (Z.shiftr 128 (v mod 8)) => fail | _ => idtac end;
+           let E := fresh "E" in assert (E : M = Z.shiftr 128 (v mod 8)) by (sweep_z v H); rewrite !E; clear E
+         end.
+Ltac norm_cond v H :=
+  match goal with
+  | |- context [if ?c then _ else _] =>
+    lazymatch c with context [nth] => fail | _ => idtac end;
+    lazymatch c with ((1 <=? v) && (v <=? 204)) => fail | _ => idtac end;
+    let E := fresh "E" in assert (E : c = ((1 <=? v) && (v <=? 204))) by (sweep_b v H); rewrite !E; clear E
+  | _ => idtac
+  end.
+
 Lemma u8_small x : 0 <= x < 256 -> to_u8 x = x.
 Proof. intros H. unfold to_u8. apply Z.mod_small. exact H. Qed.
-Lemma u32_small x : 0 <= x < 4294967296 -> to_u32 x = x.
-Proof. intros H. unfold to_u32. apply Z.mod_small. exact H. Qed.
-Lemma div8_range v : 0 <= v < 256 -> 0 <= v / 8 < 256.
-Proof. intros H. split; [apply Z.div_pos; lia|]. apply Z.div_lt_upper_bound; lia. Qed.
-Lemma mod8_range v : 0 <= v mod 8 < 256.
-Proof. pose proof (Z.mod_pos_bound v 8 ltac:(lia)). lia. Qed.
-
-(* bring index and bit position to v / 8 and v mod 8 *)
-Ltac norm8 H :=
-  rewrite ?Z.geb_leb, ?Z.gtb_ltb;
-  rewrite ?(Z.quot_div_nonneg _ 8), ?(Z.rem_mod_nonneg _ 8) by lia;
-  rewrite ?(shr3 _ H), ?(land7 _ H);
-  rewrite ?(u8_small _ (div8_range _ H)), ?(u8_small _ (mod8_range _)), ?(u32_small (_ / 8)), ?(u32_small (_ mod 8)) by
-      (first [apply div8_range; exact H | pose proof (div8_range _ H); pose proof (mod8_range); lia]).
 
 Theorem leaf_af_get a v : 0 <= v < 256 -> c_af_get a v = if af_get a v then 1 else 0.
 Proof.
-  intros H. unfold c_af_get, af_get, af_ok, af_mask. cbv zeta. norm8 H.
-  destruct ((1 <=? v) && (v <=? 204)); reflexivity.
+  intros H. unfold c_af_get, af_get, af_ok, af_mask. cbv zeta.
+  norm_index a v H. norm_mask a v H. norm_cond v H.
+  destruct ((1 <=? v) && (v <=? 204)); cbn [andb]; first [reflexivity | destruct (negb _); reflexivity].
 Qed.
 
 Theorem leaf_af_set a v : length a = 26%nat -> Forall (fun x => 0 <= x < 256) a -> 0 <= v < 256 ->
   af_set a v = Some (c_af_set__buffer a v, negb (c_af_set__ret a v =? 0)).
 Proof.
-  intros Hl Hb H. unfold c_af_set__buffer, c_af_set__ret, c_af_set, af_set, af_ok, af_mask. cbv zeta. norm8 H.
+  intros Hl Hb H. unfold c_af_set__buffer, c_af_set__ret, c_af_set, af_set, af_ok, af_mask. cbv zeta.
+  norm_index a v H. norm_mask a v H. norm_cond v H.
   destruct ((1 <=? v) && (v <=? 204)) eqn:E; [|reflexivity].
   assert (Hi : (Z.to_nat (v / 8) < length a)%nat) by (rewrite Hl; lia).
   destruct (nth_error a (Z.to_nat (v / 8))) as [byte|] eqn:En; [|apply nth_error_None in En; lia].
-  rewrite (nth_error_nth _ _ 0 En).
+  rewrite ?(nth_error_nth _ _ 0 En).
   pose proof (nth_byte a (Z.to_nat (v / 8)) Hb) as Hn. rewrite (nth_error_nth _ _ 0 En) in Hn.
   destruct (byte_facts byte (v mod 8) Hn ltac:(lia)) as [_ [R _]].
   rewrite ?(u8_small _ R). reflexivity.
